@@ -917,6 +917,46 @@ fn nsec_covers(n: &NsecRec, x: &LName) -> bool {
     o < k && (k < nx || nx <= o)
 }
 
+/// owners of wildcard-expanded RRsets of a section: RRSIG labels field < labels of the owner
+fn expanded_owners(sec: &[OutRs]) -> Vec<LName> {
+    let mut v: Vec<LName> = vec![];
+    for x in sec.iter().filter(|x| x.ty == T_RRSIG) {
+        let owner_labels = if x.name.first().is_some_and(|l| l == "*") { x.name.len() - 1 } else { x.name.len() };
+        if x.rds.iter().any(|d| d.rsplit_once('.').and_then(|(_, l)| l.parse::<usize>().ok()).is_some_and(|l| l < owner_labels)) && !v.contains(&x.name) {
+            v.push(x.name.clone());
+        }
+    }
+    v
+}
+
+/// classes of `Model/AuthZoneSignedDev.lean`, evaluated on the response the server really sent
+fn signed_classes(c: &Case, r: &Resp, qn: &LName) -> Vec<&'static str> {
+    let mut v = vec![];
+    if !c.dnssec_ok {
+        return v;
+    }
+    if c.mode == '3' {
+        // NSEC3 is not modelled: only "no NSEC3 at all behind a wildcard-expanded SOA-type answer"
+        if r.rcode == "NOERROR" && c.qtype == T_SOA && !expanded_owners(&r.an).is_empty() && !r.ns.iter().any(|x| x.ty == T_NSEC3) {
+            v.push("soa-query-wildcard-no-proof");
+        }
+        return v;
+    }
+    let nsecs = nsecs_of(&r.ns);
+    let covering = |x: &LName| nsecs.iter().any(|n| nsec_covers(n, x));
+    if r.rcode == "NXDOMAIN" {
+        let mut w = vec!["*".to_string()];
+        w.extend(dev::closest_encloser(&c.zone, qn));
+        if !covering(&w) {
+            v.push("nsec-no-wildcard-denial");
+        }
+    }
+    if r.rcode == "NOERROR" && expanded_owners(&r.an).iter().any(|x| !covering(x)) {
+        v.push(if c.qtype == T_SOA { "soa-query-wildcard-no-proof" } else { "wildcard-expansion-not-proven" });
+    }
+    v
+}
+
 fn check_signed(c: &Case, exp: &Expected, r: &Resp, qn: &LName) -> Vec<(&'static str, String)> {
     let mut f: Vec<(&'static str, String)> = vec![];
     let z = RefZone::new(&c.origin, &c.zone);
@@ -942,10 +982,8 @@ fn check_signed(c: &Case, exp: &Expected, r: &Resp, qn: &LName) -> Vec<(&'static
     let is_referral = r.ns.iter().any(|x| x.ty == T_NS && x.name != c.origin);
     let negative = r.rcode == "NXDOMAIN" || (r.rcode == "NOERROR" && an.is_empty() && !is_referral);
     // a wildcard expansion shows in the RRSIG labels field
-    let wildcard_answer = r.an.iter().any(|x| {
-        let owner_labels = if x.name.first().is_some_and(|l| l == "*") { x.name.len() - 1 } else { x.name.len() };
-        x.ty == T_RRSIG && x.rds.iter().any(|d| d.rsplit_once('.').and_then(|(_, l)| l.parse::<usize>().ok()).is_some_and(|l| l < owner_labels))
-    });
+    let expanded = expanded_owners(&r.an);
+    let wildcard_answer = !expanded.is_empty();
     if !(negative || wildcard_answer) {
         return f;
     }
@@ -959,8 +997,10 @@ fn check_signed(c: &Case, exp: &Expected, r: &Resp, qn: &LName) -> Vec<(&'static
     let covering = |x: &LName| nsecs.iter().any(|n| nsec_covers(n, x));
     let tyq = ty_name(c.qtype);
     if wildcard_answer && !negative {
-        if !covering(qn) {
-            f.push(("denial-missing", format!("wildcard answer without an NSEC covering {}", name_txt(qn))));
+        for x in &expanded {
+            if !covering(x) {
+                f.push(("denial-missing", format!("wildcard-expanded answer {} without an NSEC covering that name", name_txt(x))));
+            }
         }
         return f;
     }
@@ -1202,6 +1242,7 @@ fn classify(classes: &[&'static str], clause: &str) -> String {
         }
         "referral" => pick(&["ns-any-below-cut", "soa-below-cut", "cname-into-cut", "nested-cut"]),
         "nodata" | "nxdomain" | "negative-soa" | "answer" | "authority" => pick(&wild),
+        "denial-missing" => pick(&["nsec-no-wildcard-denial", "soa-query-wildcard-no-proof", "wildcard-expansion-not-proven"]),
         _ => String::new(),
     }
 }
@@ -1210,6 +1251,10 @@ fn classify(classes: &[&'static str], clause: &str) -> String {
 
 pub fn exec(line: &str, rec: &mut Recorder) {
     let t: Vec<&str> = line.split_whitespace().collect();
+    if t.first() == Some(&"dev") && t.get(1) == Some(&"n") {
+        rec.stat("skipped.dev-n-line-is-emitted-with-its-q-line");
+        return;
+    }
     if t.first() == Some(&"dev") {
         // class predicates only: harness mirror vs Lean definition
         let mut tt = t.clone();
@@ -1291,6 +1336,16 @@ pub fn exec(line: &str, rec: &mut Recorder) {
         rec.case(line.to_string(), "~".into())
     };
     let qn = lower(&c.qname);
+    if c.mode == 'n' {
+        // twin: the signed-stage class predicates, harness (on the real response) vs Lean (on the model)
+        let cl = signed_classes(&c, &resp, &qn);
+        let all_signed = store.as_ref().is_some_and(|st| st.iter().all(|r| r.sig_labels.is_some()));
+        rec.case(
+            format!("dev{}", &line[1..]),
+            format!("signed={} sclasses={}", b(all_signed), if cl.is_empty() { "-".to_string() } else { cl.join(",") }),
+        );
+        rec.stat("op.dev-signed");
+    }
     let exp = reference(&c.origin, &c.zone, &qn, c.qtype);
     rec.stat("op.q");
     rec.stat(&format!("mode.{}", c.mode));
@@ -1328,7 +1383,10 @@ pub fn exec(line: &str, rec: &mut Recorder) {
         rec.stat("oracle.ok");
         return;
     }
-    let classes = dev::classes(&c, &qn, &visited_names(&c, &qn));
+    let mut classes = dev::classes(&c, &qn, &visited_names(&c, &qn));
+    if c.mode != 'u' {
+        classes.extend(signed_classes(&c, &resp, &qn));
+    }
     for (clause, what) in fails {
         let class = classify(&classes, clause);
         rec.stat(&format!("oracle-fail.{}", if class.is_empty() { clause } else { &class }));
